@@ -7,8 +7,8 @@ from .. import covoracle as co
 
 EPS = np.finfo(float).eps
 RULE = ("cases = FunctionEstimator configurations (kernel tree, 1-D or multi-D x, 1..5 value columns, a in +-[1e-3,1e3], b, mu, "
-        "sigma form {0, scalar, constant vector, vector}, y_is_mean, gp_type full / sparse_cholesky / fixed with explicit "
-        "landmarks, with/without Xnew); each case evaluates the affine, column-independence, multi_fit transpose, "
+        "sigma form {0, scalar, constant vector, vector - one entry per cell, for every gp_type}, y_is_mean, gp_type full / "
+        "sparse_cholesky / fixed with explicit landmarks (m < n, m = n, m > n), with/without Xnew); each case evaluates the affine, column-independence, multi_fit transpose, "
         "interpolation, constant-vector-sigma and shrinkage relations on the implementation and compares one prediction "
         "with the Lean model; distinct = payload hash; non-trivial = prediction differs from mu")
 PARTIAL = ["monotone shrinkage towards mu as sigma grows is proved (shrinks_with_sigma: sum_i (predictor(x_i) - mu)^2 does not grow "
@@ -21,11 +21,13 @@ CLAIM = {
             "(weights(a r1 + r2) = a weights(r1) + weights(r2), by induction over the substitution recurrences), hence the "
             "prediction is affine in (y, mu); matrix right-hand sides are solved column by column (column independence); "
             "with y_is_mean or sigma^2 <= jitter the in-sample error is exactly -jitter*w; a constant per-cell sigma vector "
-            "builds the same noise factor as the scalar; the in-sample deviation from mu shrinks monotonically as sigma^2 grows "
+            "builds the same noise factor as the scalar (full model) and the same prediction as the scalar with landmarks "
+            "(const_vector_sigma_dtc); affine law and column independence hold with landmarks for every noise form incl. a "
+            "non-constant per-cell vector (affine_dtc, columns_independent_dtc); the in-sample deviation from mu shrinks monotonically as sigma^2 grows "
             "(PSD kernel). Tied to /repo by running FunctionEstimator.fit_predict / "
             "multi_fit_predict / predict and the model driver on the same inputs and by metamorphic oracles.",
-    "note": "Shrinkage monotonicity assumes a PSD kernel (proved for ExpQuad/Linear trees, hypothesis otherwise). Vector sigma together with landmarks m != n is a shape "
-            "error of the implementation (recorded under C15). Float64 modelled away.",
+    "note": "Shrinkage monotonicity assumes a PSD kernel (proved for ExpQuad/Linear trees, hypothesis otherwise). A sigma vector together with landmarks is the noise of "
+            "the cells for every number of landmarks (fixed defect 20d7957). Float64 modelled away.",
     "technique": "Lean 4 proof (linearity of forward/back substitution by induction; ridge shrinkage for PSD matrices) + metamorphic and differential checks",
 }
 
@@ -79,17 +81,28 @@ def run_case(ctx, res, p):
     basis = X2 if p["gp_type"] == "full" else np.asarray(p["Xu"], float)
     Kbb = cu.kernel_np(cov, basis, basis)
     nb = basis.shape[0]
-    if p["y_is_mean"]:
-        Nm = jitter * np.eye(nb)
-    else:
-        s2 = np.broadcast_to(np.asarray(sigma, float) ** 2, (nb,))
-        Nm = np.diag(np.where(s2 < jitter, jitter, s2))
-    if p["gp_type"] == "full":
-        M = Kbb + Nm
-    else:
-        Lnp = np.linalg.cholesky(Kbb + jitter * np.eye(nb))
+    per_cell = bool(p["gp_type"] != "full" and np.ndim(sigma) == 1 and not p["y_is_mean"])
+    if per_cell:
+        # landmarks and a per-cell sigma vector: the noise of the CELLS (any number of landmarks),
+        # (Kuu + jitter I + Kuf D^-1 Kfu) w = Kuf D^-1 (y - mu), D = diag(max(sigma_i^2, jitter))
+        res.count("landmarks:per-cell-sigma:" + ("m<n" if nb < n else "m=n" if nb == n else "m>n") +
+                  (":constant" if np.all(sigma == sigma[0]) else ""))
+        s2 = np.asarray(sigma, float) ** 2
+        Dc = np.where(s2 < jitter, jitter, s2)
         Kuf = cu.kernel_np(cov, basis, X2)
-        M = Lnp @ Nm @ Lnp.T + Kuf @ Kuf.T
+        M = Kbb + jitter * np.eye(nb) + (Kuf / Dc[None, :]) @ Kuf.T
+    else:
+        if p["y_is_mean"]:
+            Nm = jitter * np.eye(nb)
+        else:
+            s2 = np.broadcast_to(np.asarray(sigma, float) ** 2, (nb,))
+            Nm = np.diag(np.where(s2 < jitter, jitter, s2))
+        if p["gp_type"] == "full":
+            M = Kbb + Nm
+        else:
+            Lnp = np.linalg.cholesky(Kbb + jitter * np.eye(nb))
+            Kuf = cu.kernel_np(cov, basis, X2)
+            M = Lnp @ Nm @ Lnp.T + Kuf @ Kuf.T
     condM = np.linalg.cond(M)
     if p["gp_type"] != "full":
         condM = max(condM, np.linalg.cond(Kbb + jitter * np.eye(nb)))
@@ -146,13 +159,28 @@ def run_case(ctx, res, p):
         if sharp and dv > tol:
             res.oracle_fail("with y_is_mean the prediction depends on sigma (values are not treated as the mean)", p,
                             detail={"rel": float(dv), "tol": float(tol)}, signature="C16:y-is-mean-sigma")
-    # (4) constant per-cell sigma vector == scalar
-    if not np.ndim(sigma) and p["gp_type"] == "full" and not p["y_is_mean"]:
-        ov = np.asarray(make_est(p, sigma=np.full(n, float(sigma))).fit_predict(X, Y, Xnew), float)
-        dv = np.max(np.abs(ov - out)) / scale
-        res.dev("const_vector_sigma_over_tol", dv / tol)
-        if sharp and dv > tol:
-            res.oracle_fail("constant sigma vector differs from scalar sigma", p, signature="C16:const-sigma")
+    # (4) constant per-cell sigma vector == scalar: full model AND landmarks (sparse_cholesky / fixed, m < n, m = n, m > n:
+    # the vector is the noise of the cells whatever the number of landmarks)
+    twin = None
+    if not p["y_is_mean"]:
+        if not np.ndim(sigma):
+            twin = np.full(n, float(sigma))
+        elif np.all(sigma == sigma[0]):
+            twin = float(sigma[0])
+    if twin is not None:
+        res.count("const_vector_sigma_checked:" + p["gp_type"])
+        try:
+            ov = np.asarray(make_est(p, sigma=twin).fit_predict(X, Y, Xnew), float)
+        except Exception as e:
+            ov = None
+            res.oracle_fail(f"constant sigma vector / scalar twin raised {exc_class(e)}: {str(e)[:80]}", p,
+                            signature="C16:const-sigma" if p["gp_type"] == "full" else "C16:const-sigma-landmarks")
+        if ov is not None:
+            dv = np.max(np.abs(ov - out)) / scale
+            res.dev("const_vector_sigma_over_tol", dv / tol)
+            if sharp and dv > tol:
+                res.oracle_fail("constant sigma vector differs from scalar sigma", p, detail={"rel": float(dv), "tol": float(tol)},
+                                signature="C16:const-sigma" if p["gp_type"] == "full" else "C16:const-sigma-landmarks")
     # (5) shrinkage towards mu as sigma grows (full model, in-sample)
     if p["gp_type"] == "full" and not p["y_is_mean"] and Y.ndim == 1:
         norms = []
@@ -213,7 +241,7 @@ def gen_case(rng, stream):
     sform = rng.integers(4)
     if sform == 0:
         sigma = 0
-    elif sform == 1 or gp_type != "full":
+    elif sform == 1:
         sigma = loguniform(rng, 0.05, 1.0)
     elif sform == 2:
         sigma = np.full(n, loguniform(rng, 0.05, 1.0))
